@@ -591,8 +591,8 @@ func runC10() {
 		for _, call := range w.calls(caller) {
 			for _, sw := range sws {
 				total++
-				if !thorough && sw.name != "none" && !r.Chance(30) {
-					continue // quick: every (shape, call) without switch, a third of the switch combinations
+				if !thorough && sw.name != "none" && !r.Chance(22) {
+					continue // quick: every (shape, call) without switch, about a fifth of the switch combinations
 				}
 				w.one(rep, r, sh, caller, kind, static, call, sw, &items)
 			}
